@@ -26,7 +26,7 @@ META = {
 }
 
 SOURCES = ['array_list', 'array_nd', 'array_k', 'file1', 'file2']
-LENREL = ['equal', 'minus1', 'plus1', 'double', 'half']
+LENREL = ['equal', 'minus1', 'plus1', 'double', 'half', 'one']      # 'one': a single data point (skipped for two-column files, see DESIGN)
 RTOL, ATOL = 1e-5, 1e-8
 _SCRATCH = None
 
@@ -62,7 +62,7 @@ def omega_values(k):
 
 
 def target_length(L, rel):
-    return {'equal': L, 'minus1': L - 1, 'plus1': L + 1, 'double': 2 * L, 'half': max(2, L // 2)}[rel]
+    return {'equal': L, 'minus1': L - 1, 'plus1': L + 1, 'double': 2 * L, 'half': max(2, L // 2), 'one': 1}[rel]
 
 
 def perturbed_k(k, dk, M, pert):
@@ -216,13 +216,28 @@ def case_one(rec, c):
         for mk, rho, key in ((rank1_system, 0.37, ('A', 'A')), (rank2_system, 0.3, ('B', 'B'))):
             obj2, _ = make_source(src, vals0, perturbed_k(k, dom.dk, M, pert), tag + key[0])
             try:
-                P = mk(dom, obj2).createPRISM()
+                S_ = mk(dom, obj2)
+                P = S_.createPRISM()
                 rec.trans()
             except Exception as e:
                 rec.fail(c, 'createPRISM with matching tabulated omega raised %s: %s' % (type(e).__name__, str(e)[:80]), tags(src, 'rejected-valid'))
                 continue
             if not np.array_equal(P.omega[key], vals0 * rho):
                 rec.fail(c, 'PRISM.omega[%s,%s] is not the supplied data times the site density' % key, tags(src, 'not-verbatim'))
+            # the System keeps the table verbatim: a second and third PRISM object built from it see the same data
+            try:
+                P2 = S_.createPRISM()
+                P3 = S_.createPRISM()
+                rec.trans(2)
+                still = np.asarray(S_.omega[key].calculate(dom.k))
+            except Exception as e:
+                rec.fail(c, 'second createPRISM from the same System raised %s: %s' % (type(e).__name__, str(e)[:80]), tags(src, 'rejected-valid'))
+                continue
+            if not (np.array_equal(P2.omega[key], vals0 * rho) and np.array_equal(P3.omega[key], vals0 * rho) and np.array_equal(P.omega[key], vals0 * rho)):
+                rec.fail(c, 'PRISM.omega[%s,%s] of a second/third PRISM object built from the same System is not the supplied data times the site density' % key,
+                         tags(src, 'not-verbatim'))
+            if not np.array_equal(still, vals0):
+                rec.fail(c, 'after createPRISM the table stored in the System no longer returns the supplied data', tags(src, 'not-verbatim'))
         verdict = 'verbatim'
     else:
         if raised is not None:
@@ -271,6 +286,8 @@ def cases_for(dspec, every_point):
     out = []
     for src in SOURCES:
         for rel in LENREL:
+            if rel == 'one' and (src == 'file2' or L == 1):
+                continue
             perts = [['none']]
             if src in ('array_k', 'file2'):
                 perts += [['shift'], ['rescale']]
